@@ -36,7 +36,9 @@ META = {
         "list order, place block i at rows offset + expand(arange(n_i), dim), of width n_i*dim, in a matrix of height "
         "sum(n)*dim, and move the offset to one past the block just emitted (after using it), starting from 0. R6: "
         "BoundaryProjection stacks one block per listed subdomain in order, bg.projection(dim) * face_proj[sd].T, and its two "
-        "properties are transposes of one matrix. Decides these structural clauses; that the assembled matrices are "
+        "properties are transposes of one matrix. R7: each _is_conforming_<side> flag is decided, for every listed interface and "
+        "monotonically, from projections of its own side that include a complete int/avg pair of a direction whose cache slots "
+        "the flag merges (the merged directions are read off R2's partial evaluation). Decides these structural clauses; that the assembled matrices are "
         "permutations / identities is their run-time consequence and is not decided numerically."),
     "rule_text": "one obligation per (method x argument clause | method x flag value | assembly clause | restriction/prolongation "
                  "clause | builder clause)",
@@ -46,7 +48,7 @@ META = {
                     "scipy.sparse.bmat([[a],[b]]) stacks vertically and bmat([[a, b]]) horizontally"],
     "technique": "sibling agreement over a method table + partial evaluation under a boolean flag + shape/dataflow rules on the CFG",
 }
-MIN_INSTANCES = {"R1": 16, "R2": 16, "R3": 14, "R4": 14, "R5": 14, "R6": 5}
+MIN_INSTANCES = {"R1": 16, "R2": 16, "R3": 14, "R4": 14, "R5": 14, "R6": 5, "R7": 6}
 
 
 # ---------------------------------------------------------------------------------------
@@ -865,6 +867,129 @@ def _r6(ctx: Ctx, mod) -> None:
               "subdomain_to_boundary returns", construct=f"stack {u(a)}; properties {props}", facts={"vertical": vert, "properties": props})
 
 
+# ---------------------------------------------------------------------------------------
+# R7 conformity flags
+# ---------------------------------------------------------------------------------------
+
+ACC_RE = re.compile(r"^(primary|secondary|mortar)_to_(primary|secondary|mortar)_(int|avg)$")
+
+
+def _merged_slots(meths: dict) -> dict[str, set[tuple[str, str]]]:
+    """flag attribute -> directions (x, y) whose int and avg variants share one cache slot `_x_to_y` while the flag is
+    true (read off the partial evaluation of the eight methods)."""
+    flags = {n.attr for name, *_ in _method_names() if name in meths for n in ast.walk(meths[name])
+             if isinstance(n, ast.Attribute) and u(n.value) == "self" and n.attr.startswith("_is_conforming")}
+    out: dict[str, set] = {}
+    for fl in sorted(flags):
+        for name, *_ in _method_names():
+            fn = meths.get(name)
+            if fn is None:
+                continue
+            touched = {}
+            for val in (True, False):
+                pe = _PE(fl, val)
+                pe.run(list(fn.body))
+                touched[val] = pe.reads | pe.writes
+            for slot in touched[True] - touched[False]:
+                m = SLOT_RE.match(slot)
+                if m and m.group(3) is None:
+                    out.setdefault(fl, set()).add((m.group(1), m.group(2)))
+    return out
+
+
+def _r7(ctx: Ctx, mod, meths: dict) -> None:
+    init = meths.get("__init__")
+    if init is None:
+        raise AnchorError(f"{GO}:MortarProjections.__init__ missing")
+    q = "MortarProjections.__init__"
+    f = Fn(init, GO, q)
+    merged = _merged_slots(meths)
+    if not merged:
+        ctx.note("R7: no cache slot is shared between int and avg under a flag - nothing to decide")
+        return
+    iparams = [a.arg for a in init.args.args if a.arg != "self"]
+    for flag, dirs in sorted(merged.items()):
+        side = flag.replace("_is_conforming_", "")
+        stores = [s_ for s_ in stmts_local(init) if isinstance(s_, (ast.Assign, ast.AnnAssign)) and s_.value is not None
+                  and any(isinstance(t, ast.Attribute) and u(t.value) == "self" and t.attr == flag for t in assigned_targets(s_))]
+        if len(stores) != 1:
+            raise AnchorError(f"{GO}:{q}: self.{flag} is not set exactly once")
+        src = stores[0].value
+        # statements that determine the flag's value
+        if isinstance(src, ast.Name):
+            local = src.id
+            defs = [d for d, k, _ in f.defs(local) if k != "weak"]
+        else:
+            local, defs = None, [stores[0]]
+        if not defs:
+            raise Undecided(f"{GO}:{q}: `{u(src)}` has no definition")
+        accs: list[tuple[str, ast.Call, str]] = []      # (accessor, call, receiver)
+        init_true = False
+        lowered = []
+        raised_again = []
+        for d in defs:
+            val = d.value if isinstance(d, (ast.Assign, ast.AnnAssign)) else None
+            if val is None:
+                raise Undecided(f"{GO}:{q}: `{local}` defined by {type(d).__name__}")
+            in_loop = [p for p, _ in f.enclosing(d, (ast.For,))]
+            exprs: list[ast.AST] = [val]
+            exprs += [p.test for p, _ in f.enclosing(d, (ast.If,))]
+            exprs += [p.iter for p in in_loop]
+            accumulating = isinstance(val, ast.BoolOp) and isinstance(val.op, ast.And) and local is not None \
+                and any(isinstance(x, ast.Name) and x.id == local for x in val.values)
+            if isinstance(val, ast.Constant) and val.value is True and not in_loop:
+                init_true = True
+            elif isinstance(val, ast.Constant) and val.value is False:
+                lowered.append(d)
+            elif accumulating:
+                lowered.append(d)
+            elif not in_loop and len(defs) == 1:
+                init_true = True          # decided in one expression over all interfaces
+            else:
+                raised_again.append(d)    # overwritten inside the loop: the last interface would decide alone
+            for e in exprs:
+                for c in ast.walk(e):
+                    if isinstance(c, ast.Call) and isinstance(c.func, ast.Attribute) and ACC_RE.match(c.func.attr) \
+                            and isinstance(c.func.value, ast.Name):
+                        accs.append((c.func.attr, c, c.func.value.id))
+        if not accs:
+            raise Undecided(f"{GO}:{q}: cannot see which projections decide self.{flag}")
+        names = sorted({a for a, _, _ in accs})
+        parsed = [ACC_RE.match(a).groups() for a in names]
+        # (1) same side only
+        foreign = [a for a, (x, y, k) in zip(names, parsed) if side not in (x, y)]
+        ctx.check("R7", not foreign, mod, q, accs[0][1],
+                  f"self.{flag} governs the shared slots of the {side} side; it must be decided from {side}-side projections only, "
+                  f"found {foreign}", construct=f"{flag} decided from {names}: side", facts={"projections": names})
+        # (2) a complete int/avg pair of a direction whose slots the flag merges
+        complete = [(x, y) for (x, y) in sorted(dirs)
+                    if {f"{x}_to_{y}_int", f"{x}_to_{y}_avg"} <= set(names)]
+        ctx.check("R7", bool(complete), mod, q, accs[0][1],
+                  f"while self.{flag} is true the int and avg variants of {sorted('_to_'.join(d) for d in dirs)} share one cache slot, so "
+                  f"the flag may only be true if an int/avg pair of one of these directions agrees (both all-ones); it is decided "
+                  f"from {names}, which contains no such pair - a projection and the transpose-sibling of its twin "
+                  f"(e.g. mortar_to_{side}_int with {side}_to_mortar_avg) carry the same entries, so the other kind is never "
+                  f"looked at and non-conforming interfaces with a finer mortar grid pass as conforming",
+                  construct=f"{flag} decided from {names}: int/avg pair", facts={"projections": names, "merged": sorted(dirs)})
+        # (3) every listed interface is examined and the flag can only be lowered
+        recvs = {r for _, _, r in accs}
+        loops_ok = True
+        for _, c, r in accs:
+            binders = [p for p, _ in f.enclosing(c, (ast.For,)) if r in {t.id for t in assigned_targets(p) if isinstance(t, ast.Name)}]
+            comp = [g for p, _ in f.enclosing(c, (ast.ListComp, ast.GeneratorExp, ast.SetComp)) for g in p.generators
+                    if r in names_in(g.target)]
+            its = [b.iter for b in binders] + [g.iter for g in comp]
+            if not its or not all(_list_order(i, iparams[2] if len(iparams) > 2 else "interfaces") is not None
+                                  or u(i) == "self._interfaces" for i in its[:1]):
+                loops_ok = False
+        ok = loops_ok and not raised_again and (init_true or local is None)
+        ctx.check("R7", ok, mod, q, stores[0],
+                  f"self.{flag} must start true, be examined for every listed interface and only ever be lowered",
+                  construct=f"{flag}: all interfaces, monotone", facts={"receivers": sorted(recvs), "lowered_at": len(lowered)})
+        ctx.sample({"rule": "R7", "flag": flag, "decided_from": names, "merges": sorted("_to_".join(d) for d in dirs)})
+
+
+
 def run(ctx: Ctx) -> None:
     mod = ctx.repo.module(GO)
     mp = mod.cls("MortarProjections")
@@ -874,6 +999,7 @@ def run(ctx: Ctx) -> None:
     _r4(ctx, mod)
     _r5(ctx, mod)
     _r6(ctx, mod)
+    _r7(ctx, mod, meths)
     if ctx.tier == "thorough":
         # every other user of the builders must pass a grid list and a dim (two positional arguments)
         n = 0
@@ -963,6 +1089,16 @@ MUTANTS = [
     _m("face-builder-counts-cells", "        face_sz = sd.num_faces * dim\n", "        face_sz = sd.num_cells * dim\n", "R5"),
     _m("cell-height-ignores-dim", "    tot_num_cells = np.sum([sd.num_cells for sd in subdomains]) * dim\n    cell_offset = 0",
        "    tot_num_cells = np.sum([sd.num_cells for sd in subdomains])\n    cell_offset = 0", "R5"),
+    # conformity flags
+    _m("seed-conformity-check-wrong-sibling", "                intf.mortar_to_secondary_avg(),\n            ]:",
+       "                intf.secondary_to_mortar_avg(),\n            ]:", "R7"),
+    _m("conformity-primary-checks-int-only", "for proj in [intf.mortar_to_primary_int(), intf.mortar_to_primary_avg()]:",
+       "for proj in [intf.mortar_to_primary_int()]:", "R7"),
+    _m("conformity-secondary-decided-from-primary",
+       "                intf.mortar_to_secondary_int(),\n                intf.mortar_to_secondary_avg(),\n",
+       "                intf.mortar_to_primary_int(),\n                intf.mortar_to_primary_avg(),\n", "R7"),
+    _m("conformity-flag-reset-per-interface", "        for intf in interfaces:\n            # Check the data of projections",
+       "        for intf in interfaces:\n            is_conforming_secondary = True\n            # Check the data of projections", "R7"),
     # boundary projection
     _m("boundary-projection-ignores-dim", "mat_loc = bg.projection(dim)", "mat_loc = bg.projection()", "R6"),
     _m("boundary-to-subdomain-not-transposed", "            self._projection.transpose().tocsc(),\n", "            self._projection.tocsc(),\n", "R6"),
